@@ -82,7 +82,8 @@ func raceCase1(c raceCase, nonce string) (tr *trace, err error) {
 		l.cleanup()
 	}()
 	mk := func(op string) event {
-		return event{Op: op, Names: []string{}, Path: []string{}, Rb: []string{}, Mem: map[string]map[string][]string{}}
+		return event{Op: op, Names: []string{}, Path: []string{}, Rb: []string{}, Mem: map[string]map[string][]string{},
+			Lims: []limit{}, Allowed: map[string]string{}}
 	}
 	base, err := cgroup.New(l.apiPrefix(), l.controllers())
 	if err != nil {
